@@ -10,7 +10,6 @@ import (
 	"strings"
 
 	cli "github.com/jawher/mow.cli"
-	"github.com/jawher/mow.cli/internal/lexer"
 	"github.com/jawher/mow.cli/internal/zverif/ref"
 )
 
@@ -144,17 +143,10 @@ func runLang(d *ref.Decl, spec string, argv []string, lo langOpts) LangObs {
 	obs.Exits = o.Exits
 	if o.Panicked {
 		obs.Panic = safeSprint(o.PanicVal)
-		if pe, ok := o.PanicVal.(*lexer.ParseError); ok {
+		if pe := asSpecErr(o.PanicVal); pe != nil {
 			obs.SpecError = true
 			obs.SpecPos = pe.Pos
-			func() {
-				defer func() {
-					if r := recover(); r != nil {
-						obs.SpecMsg = fmt.Sprint("Error() panicked: ", r)
-					}
-				}()
-				obs.SpecMsg = pe.Error()
-			}()
+			obs.SpecMsg = pe.Text()
 			obs.Panic = "spec error at " + fmt.Sprint(pe.Pos) + ": " + pe.Msg
 		}
 	}
